@@ -415,8 +415,14 @@ def accept(ctx, report, rule, facts, config, want=("chain", "accept", "cap")):
             for path_, fld in ((A.STAGE, "groups"), (A.SB, "ids")):
                 ty = facts.adt_field(path_, fld)["ty"]
                 import re
-                m = re.findall(r"arrayvec::ArrayVec<.*?, (\d+)>", ty)
-                caps.update(int(x) for x in m)
+                m = re.findall(r"arrayvec::ArrayVec<.*, (\w+)>; \d+\]>", ty)
+                for x in m:
+                    if x.isdigit():
+                        caps.add(int(x))
+                    else:
+                        for cpath, cst in facts.consts.items():
+                            if cpath.rsplit("::", 1)[-1] == x and "int" in cst:
+                                caps.add(cst["int"])
             ok = k_found is not None and len(caps) == 1 and k_found <= min(caps) - 1 and not [p_ for p_ in problems if "capacity" in p_ or "full group" in p_]
             report.ob(rule, "insertion_target/capacity", ok,
                       "a group is joined only while len < %s; ArrayVec capacity of both group tables is %s" % (k_found, sorted(caps)),
@@ -476,6 +482,13 @@ def fold_int(t):
     if t[0] == "cast":
         return fold_int(t[2])
     return None
+
+
+def fold_like(t, base, inc):
+    """t is `base + inc` (checked add: field 0 of AddWithOverflow)."""
+    if isinstance(t, tuple) and t[0] == "field" and t[2] == "0" and isinstance(t[1], tuple) and t[1][0] == "bin":
+        t = t[1]
+    return isinstance(t, tuple) and t[0] == "bin" and t[1].startswith("Add") and t[2] == base and t[3] == ("int", inc)
 
 
 # ------------------------------------------------------------------ barrier rules
@@ -554,3 +567,246 @@ def barrier(ctx, report, rule, facts, config, want=("set", "fwd", "range")):
                         report.ob(rule, "target-built/%s/%s" % (b.qname, st["rv"]["variant"]), okb,
                                   "InsertionTarget::%s is constructed in %s" % (st["rv"]["variant"], b.qname), site=b.loc(bi), config=config)
         report.floor(rule, "constructions of Stage/Group targets", n, 2, config=config)
+
+
+# ------------------------------------------------------------------ dependency bookkeeping (C02 / C10)
+
+def _remove_ids_sites(ctx, facts):
+    prog = ctx.program(facts)
+    rid = facts.one(A.SB + "::remove_ids")
+    return rid, facts.callers().get(rid.key, [])
+
+
+def dep_order(ctx, report, rule, facts, config):
+    """C02.ORDER: in the evaluate closure find_conflict(s, .., dep) dominates
+    remove_ids(s, dep): same stage, same list."""
+    prog = ctx.program(facts)
+    ch = chain(ctx, facts)
+    ev = facts.bodies[ch["closures"][0][1]]
+    report.touched(ev, config)
+    bt = prog.bt(ev)
+    fcs = [bb for bb, t in ev.normal_calls() if Callee(t["func"]).name == "find_conflict"]
+    rms = [bb for bb, t in ev.normal_calls() if Callee(t["func"]).name == "remove_ids"]
+    ok = len(fcs) == 1 and len(rms) == 1 and bt.cfg.dominates(fcs[0], rms[0]) and fcs[0] != rms[0]
+    detail = "find_conflict %s, remove_ids %s" % (fcs, rms)
+    if ok:
+        fa = bt.call_args(fcs[0])
+        ra = bt.call_args(rms[0])
+        ok = fa[3] == ra[1] == ("param", 2) and fa[6] == ra[2] == ("upvar", "new_dep") and ra[0] == ("upvar", "self")
+        detail = "the stage is judged against the pending list before its own ids are crossed off (same stage, same list)" if ok else \
+            "find_conflict(stage=%s, dep=%s) vs remove_ids(stage=%s, dep=%s)" % (fa[3], fa[6], ra[1], ra[2])
+    else:
+        detail = "a stage's ids are crossed off the pending list before (or without) judging the stage: " + detail
+    report.ob(rule, "evaluate/find_conflict-before-remove_ids", ok, detail, site=ev.loc(), config=config)
+
+
+def crossoff(ctx, report, rule, facts, config, want=("own-stage", "all-occurrences")):
+    """remove_ids(stage, dep): entries are removed only when equal to an id of
+    ids[stage] (C02.CROSSOFF) and every equal entry goes (C10.ALLOCC)."""
+    prog = ctx.program(facts)
+    rid = facts.one(A.SB + "::remove_ids")
+    report.touched(rid, config)
+    bt = prog.bt(rid)
+    trs = [t for t in traversals(prog, rid) if t.kind == "for"]
+    problems = []
+    tr = None
+    for t_ in trs:
+        fields, idx, base = S.table_access(rid, t_.source)
+        # flatten(iter(ids[stage]))
+        if S.crate_fields(fields) == [(A.SB, "ids")] and base == ("param", 1):
+            tr = t_
+            if idx != [("param", 2)]:
+                problems.append("ids are read from ids[%s], not from the `stage` argument" % (idx,))
+            if not t_.full:
+                problems.append("the ids of the stage are not fully traversed: " + t_.why)
+            if "Flatten<" not in (t_.iter_ty or ""):
+                problems.append("the traversal does not flatten the groups of the stage (%s)" % t_.iter_ty)
+    if tr is None:
+        problems.append("no traversal of self.ids[stage] found")
+    removers = []
+    for bb, t in rid.normal_calls():
+        c = Callee(t["func"])
+        if c.local or not t["args"]:
+            continue
+        args = bt.call_args(bb)
+        if root(args[0], bt, facts.crate)[0] == ("param", 3) and c.name in S.SHAPE_MUTATORS:
+            removers.append((bb, c, args))
+    if "own-stage" in want:
+        for bb, c, args in removers:
+            if tr is None or bb not in tr.loop:
+                problems.append("the pending list is modified by `%s` outside the loop over ids[stage] (%s)" % (c.name, rid.loc(bb)))
+        # the closure that selects entries compares with the loop element
+        sel = []
+        for cb in facts.closures_of(rid, False):
+            cr = prog.creation(cb)
+            if not cr:
+                continue
+            parent, agg, dest, _ = cr
+            caps = dict(zip(agg[4], agg[3]))
+            cmp_ok = False
+            for bb, t in cb.normal_calls():
+                cc = Callee(t["func"])
+                if cc.trait == "std::cmp::PartialEq" and cc.name in ("eq", "ne"):
+                    a = prog.bt(cb).call_args(bb)
+                    bases = set()
+                    for x in a:
+                        b_, p_ = root(x, prog.bt(cb), facts.crate)
+                        bases.add(b_)
+                    if ("param", 2) in bases and any(b_[0] == "upvar" for b_ in bases if isinstance(b_, tuple)):
+                        up = [b_ for b_ in bases if b_[0] == "upvar"][0]
+                        src = caps.get(up[1])
+                        if tr is not None and src is not None and root(src, bt, facts.crate)[0] == ("elem", tr.header):
+                            cmp_ok = True
+                    sel.append((cb, cc.name, cmp_ok))
+        if not any(ok_ for _, _, ok_ in sel):
+            problems.append("no selection closure compares a pending entry with the id read from ids[stage]")
+        report.ob(rule, "remove_ids/own-stage", not problems, "; ".join(problems) if problems else
+                  "entries are removed inside a full traversal of ids[stage] (flattened) and only when equal to the id read there", site=rid.loc(), config=config)
+    if "all-occurrences" in want:
+        pr = []
+        names = [c.name for _, c, _ in removers]
+        if not removers:
+            pr.append("remove_ids never removes anything")
+        elif all(n in ("retain", "retain_mut") for n in names):
+            pass  # retain removes every matching entry
+        elif "remove" in names or "swap_remove" in names:
+            # accepted only if the removal is itself repeated until no entry is left, or the list is duplicate-free by construction
+            dedup = _dep_list_deduped(ctx, facts)
+            inner_loops = [t_ for t_ in traversals(prog, rid) if tr is not None and t_.header in tr.loop and t_.header != tr.header]
+            while_loops = [h for h, blocks in bt.cfg.loops() if tr is not None and h in tr.loop and h != tr.header and set(blocks) < set(tr.loop)
+                           and any(bb in blocks for bb, c, _ in removers)]
+            if not dedup and not while_loops:
+                pr.append("a finished dependency is crossed off with a single `%s` of the first match: a list naming the same system twice keeps a stale entry and forces a needless stage" % [n for n in names if n in ("remove", "swap_remove")][0])
+        else:
+            pr.append("unrecognised removal idiom %s" % names)
+        report.ob(rule, "remove_ids/all-occurrences", not pr, "; ".join(pr) if pr else "every equal entry is removed (%s)" % "/".join(sorted(set(names))), site=rid.loc(removers[0][0]) if removers else rid.loc(), config=config)
+
+
+def _dep_list_deduped(ctx, facts):
+    """Is the dependency list made duplicate-free (sort + dedup) before placement?"""
+    prog = ctx.program(facts)
+    for q in (A.SB + "::insert", A.DB + "::add"):
+        b = facts.one(q)
+        bt = prog.bt(b)
+        for bb, t in b.normal_calls():
+            c = Callee(t["func"])
+            if c.name in ("dedup", "dedup_by_key") and not c.local:
+                a = bt.call_args(bb)
+                r_, p_ = root(a[0], bt, facts.crate)
+                if (q.endswith("insert") and r_ == ("param", 2)) or (q.endswith("add") and isinstance(r_, tuple) and r_[0] == "call" and bt.callee(r_[1]).name == "collect"):
+                    return True
+    return False
+
+
+def depcover(ctx, report, rule, facts, config):
+    """C10.DEPCOVER: the stages whose ids are crossed off the pending list
+    cover every stage in front of the candidate being judged: the ranges that
+    feed remove_ids' stage argument chain from constant 0 to the scan range."""
+    prog = ctx.program(facts)
+    rid, sites = _remove_ids_sites(ctx, facts)
+    ch = chain(ctx, facts)
+    it = ch["body"]
+    report.touched(it, config)
+    ranges = []  # (lo term, hi term, where, body)
+    problems = []
+    for cb, bb in sites:
+        bt = prog.bt(cb)
+        args = bt.call_args(bb)
+        st = args[1]
+        rng = None
+        if cb.is_closure and st == ("param", 2):
+            # element of the adaptor's receiver
+            for parent, pbb, j in prog.closure_uses(cb):
+                pa = prog.bt(parent).call_args(pbb)
+                if j >= 1 and pa[0][0] == "agg" and pa[0][2] == "std::ops::Range::Range":
+                    rng = (pa[0][3][0], pa[0][3][1], parent, pbb, "scan")
+        else:
+            b_, p_ = root(st, bt, facts.crate)
+            if isinstance(b_, tuple) and b_[0] == "elem":
+                for tr in traversals(prog, cb):
+                    if tr.header == b_[1] and isinstance(tr.source, tuple) and tr.source[0] == "agg" and tr.source[2] == "std::ops::Range::Range":
+                        if not tr.full:
+                            problems.append("the pre-scan cross-off loop is not a full traversal: " + tr.why)
+                        rng = (tr.source[3][0], tr.source[3][1], cb, tr.header, "loop")
+        if rng is None:
+            problems.append("remove_ids at %s is applied to a stage that does not come from a range (%s)" % (cb.loc(bb), st))
+        else:
+            ranges.append(rng)
+    # chain from 0
+    cur = ("int", 0)
+    used = []
+    todo = list(ranges)
+    progress = True
+    while progress:
+        progress = False
+        for r in list(todo):
+            if r[0] == cur:
+                used.append(r)
+                todo.remove(r)
+                cur = r[1]
+                progress = True
+    scan = [r for r in ranges if r[4] == "scan"]
+    covered_to_scan_start = bool(scan) and any(u is scan[0] for u in used)
+    if not scan:
+        problems.append("the candidate scan does not cross ids off at all")
+    elif not covered_to_scan_start:
+        problems.append("the ids of stages 0..%s are never crossed off the pending dependency list: a dependency on a system in front of the barrier "
+                        "keeps every later stage rejected and forces a stage of its own" % _short(scan[0][0]))
+    # the pre-scan cross-off must happen before the scan starts
+    if scan and covered_to_scan_start:
+        for u in used:
+            if u[4] == "loop" and u[2].key == it.key:
+                scan_bb = scan[0][3]
+                if not prog.bt(it).cfg.dominates(u[3], scan_bb):
+                    problems.append("the pre-scan cross-off does not dominate the scan")
+    report.ob(rule, "remove_ids/coverage", not problems, "; ".join(problems) if problems else
+              "ids are crossed off for stages %s" % " then ".join("%s..%s" % (_short(u[0]), _short(u[1])) for u in used), site=it.loc(), config=config)
+    report.floor(rule, "remove_ids call sites", len(sites), 1, config=config)
+
+
+def _short(t):
+    if not isinstance(t, tuple):
+        return str(t)
+    if t[0] == "int":
+        return str(t[1])
+    if t[0] == "field":
+        return "self." + t[2] if t[1] == ("param", 1) else "%s.%s" % (_short(t[1]), t[2])
+    if t[0] == "call":
+        return "call@bb%d(..)" % t[1]
+    return t[0]
+
+
+def width(ctx, report, rule, facts, config):
+    """C10.WIDTH: max_threads = max over all stages of the number of groups."""
+    prog = ctx.program(facts)
+    sm = facts.one(A.STAGE + "::max_threads")
+    report.touched(sm, config)
+    ret = prog.bt(sm).local(0)
+    fields, idx, base = S.table_access(sm, ret[2][0]) if _is_call(sm, ret, "len") else ([], [], None)
+    ok = S.crate_fields(fields) == [(A.STAGE, "groups")] and not idx and base == ("param", 1)
+    report.ob(rule, "Stage::max_threads", ok, "returns self.groups.len()" if ok else "returns %s (expected the number of groups)" % (ret,), site=sm.loc(), config=config)
+    dm = facts.one(A.SD + "::max_threads")
+    report.touched(dm, config)
+    bt = prog.bt(dm)
+    ret = bt.local(0)
+    names = []
+    t = ret
+    fnrefs = []
+    while isinstance(t, tuple) and t and t[0] == "call":
+        c = bt.callee(t[1])
+        names.append(c.name)
+        for a in t[2][1:]:
+            if a[0] == "fnref":
+                fnrefs.append(a[1])
+            elif a[0] == "int":
+                fnrefs.append(a)
+        t = t[2][0] if t[2] else None
+    ok = names == ["unwrap_or", "max", "map", "iter", "deref"] or names == ["unwrap_or", "max", "map", "iter"]
+    ok = ok and sm.key in fnrefs and ("int", 0) in fnrefs and t == ("field", ("param", 1), "stages", A.SD)
+    report.ob(rule, "SendDispatcher::max_threads", ok, "self.stages.iter().map(Stage::max_threads).max().unwrap_or(0)" if ok else
+              "max_threads is computed as %s over %s" % (list(reversed(names)), t), site=dm.loc(), config=config)
+    d = facts.one(A.DISP + "::max_threads")
+    bt = prog.bt(d)
+    ret = bt.local(0)
+    ok = _is_call(d, ret, "max_threads") and ret[2] == (("field", ("param", 1), "inner", A.DISP),)
+    report.ob(rule, "Dispatcher::max_threads", ok, "forwards to self.inner.max_threads()", site=d.loc(), config=config)
